@@ -181,8 +181,43 @@ pub fn run(ctx: &Ctx, rep: &Report) {
                 }
             }
         }
+        // inputs made of one repeated byte value (every value x every length), and the usual TEXT forms of the valid
+        // frames (hex digits in both cases, AVR "*...;" / "@<timestamp>...;", with a line end): a byte string is a
+        // message only as raw bytes of the prescribed length
+        for b in 0..=255u8 {
+            for len in 0..=32usize {
+                let f = vec![b; len];
+                let r = fspace::decode(&f);
+                m += 1;
+                if judge_bytes(rep, "length:repeated-byte", &f, &r) == "accepted" {
+                    acc += 1;
+                }
+            }
+        }
+        for base in shorts.iter().chain(longs.iter()) {
+            let hex = hexs(base);
+            let forms: Vec<String> = vec![
+                hex.clone(),
+                hex.to_uppercase(),
+                format!("*{hex};"),
+                format!("*{};", hex.to_uppercase()),
+                format!("@0123456789ab{hex};"),
+                format!("{hex}\n"),
+                format!("{hex}\r\n"),
+                format!("0x{hex}"),
+                format!(" {hex}"),
+            ];
+            for t in forms {
+                let f = t.into_bytes();
+                let r = fspace::decode(&f);
+                m += 1;
+                if judge_bytes(rep, "length:text-form", &f, &r) == "accepted" {
+                    acc += 1;
+                }
+            }
+        }
         n += m;
-        rep.part("length law: valid frames padded, concatenated and cut short", m, json!({}));
+        rep.part("length law: valid frames padded, concatenated and cut short; repeated bytes; text forms", m, json!({}));
     }
     rep.part("length law", n, json!({"accepted": acc}));
     // (a') order independence: a result must not depend on which frames were decoded before it
